@@ -15,11 +15,11 @@ for c in "$@"; do
   : > $out
   VERIF_LOCK_HELD=1 VERIF_NO_EVIDENCE=1 VERIF_WORKERS=${W:-6} VERIF_BUDGET_SEC=${BUDGET:-20} ./bin/verifctl check $c --tier quick > $out 2>&1 &
   pid=$!
-  while kill -0 $pid 2>/dev/null && ! grep -q "tree copied\|build failed" $out; do sleep 0.2; done
+  while kill -0 $pid 2>/dev/null && ! grep -a -q "tree copied\|build failed" $out; do sleep 0.2; done
   git -C /repo checkout -- .
   flock -u 9
   wait $pid; rc=$?
-  cls=$(grep -m1 "class=" $out | sed 's/^ *//' | cut -c1-160)
+  cls=$(grep -a -m1 "class=" $out | sed 's/^ *//' | cut -c1-160)
   echo "$(basename $D) $c exit=$rc $cls"
   rm -f $out
 done
